@@ -97,6 +97,8 @@ func checkC10(r *Run) {
 		r.Check("C10-R4", pb+": r and s are each set exactly once from their 32 bytes", r.P.Pos(fn.Pos()), len(seen) == 2 && seen["big.Int.SetBytes($0.S.Int, $1[32:64])"], fmt.Sprint(len(seen)))
 	}
 	ruleRecoverRange(r, "C10-R4")
+	// a block signature covers the header only: the chain from the signature to the body it speaks for
+	ruleBlockSigChain(r, "C10-R6")
 	// trailing bytes: the raw-transaction entry decodes the whole buffer or fails
 	r.RequireOnSuccess("C10-R5", "coin.DeserializeTransaction", req("decodes with the exact (whole buffer) generated decoder", "ok(coin.decodeTransactionExact($0, *))"))
 	r.RequireOnSuccess("C10-R5", "coin.decodeTransactionExact",
